@@ -74,6 +74,7 @@ Record case := {
   c_wp : wpath;
   c_var : variant;
   c_decl : str;                           (* the type name PRAGMA table_info reports for the column *)
+  c_indom : bool;                         (* the oracle's (Python) reading of "v is in the column's documented domain" *)
   c_tab : tables;
   c_obs : obs
 }.
@@ -104,9 +105,10 @@ Definition agree (c : case) : bool :=
   let o := model c in
   let b := c_obs c in
   let wrote := match o_write o with Ok _ => true | Raise _ => false end in
-  let lazy_pre := match c_wp c, c_var c with WCreate, _ => false | _, VLazy => true | _, _ => false end in
   (* the declared type (hence the affinity) *)
   str_eqb (c_decl c) (sqlite_type (c_col c)) &&
+  (* the theorems' domain predicate is the oracle's; real Python objects are well-formed *)
+  Bool.eqb (in_domain (c_col c) (c_val c)) (c_indom c) && wf (c_val c) &&
   (* did the write return; the exception class if not *)
   res_eqb unit_eqb (o_write o) (ob_w b) &&
   Bool.eqb (o_row o) (ob_row b) &&
@@ -115,7 +117,6 @@ Definition agree (c : case) : bool :=
   (* the writer before a lazy flush, and the row still untouched then *)
   orp_eqb (o_cache_pre o) (ob_pre b) &&
   option_eqb sval_eqb (match o_cache_pre o with Some _ => Some SNull | None => None end) (ob_raw_pre b) &&
-  Bool.eqb lazy_pre lazy_pre &&
   (* the writer's attribute *)
   orp_eqb (o_cache o) (ob_cache b) &&
   (* both spellings of the equality query *)
